@@ -30,8 +30,22 @@ UNITS = ['fg', 'nanometer', 'mmol/L', 'fg/fL', 'count', 'nanosecond', 'mg*nm/s**
 MAGS = [0, 1, -3, 2.5, 1e300, 1e-300, -0.0, math.nan, 2 ** 52 + 1]
 
 
+class TagSet(set):
+    pass
+
+
+class IdSet(set):
+    pass
+
+
 def leaf(rng):
-    k = rng.randrange(14)
+    k = rng.randrange(15)
+    if k == 14:
+        # subclasses of registered types are serialized like the base type ("type matching is NOT exact"), whatever was
+        # serialized before
+        # serialized before (two different subclasses in ONE tree, so that a replay of the single value shows it)
+        return rng.choice([[TagSet({1, 2}), IdSet({'a'})], (IdSet(), TagSet({3})),
+                           [np.ma.MaskedArray([1.0, 2.0]), np.array([(1, 2.0)], dtype=[('i', int), ('f', float)]).view(np.recarray)['f']]])
     if k == 0: return rng.choice([0, 1, -7, 2 ** 53 - 1, -(2 ** 53) + 1])
     if k == 1: return rng.choice([0.0, 1.5, -2.25, 1e300, 1e-300, 0.1])
     if k == 2: return rng.choice([True, False])
